@@ -27,6 +27,8 @@ var DefaultBroadcast = netip.MustParseAddrPort("255.255.255.255:60000")
 // BroadcastOf: the configured broadcast address, or the default.
 func BroadcastOf(c ClientConf) netip.AddrPort {
 	if ap, err := netip.ParseAddrPort(c.Broadcast); err == nil && ap.Addr().IsValid() {
+		// an IPv4 address written in its IPv4-mapped IPv6 form (what a net.UDPAddr hands out) is that IPv4 address
+		ap = netip.AddrPortFrom(ap.Addr().Unmap(), ap.Port())
 		return ap
 	}
 	return DefaultBroadcast
